@@ -232,6 +232,66 @@ def Fs.names (fs : Fs) : List Name := fs.map (·.1)
 /-- `DeleteTempFilesIfExist`: every direct child of work_dir whose name matches the pattern is removed (`RemoveAll`). -/
 def sweep (F : Facts) (fs : Fs) : Fs := fs.filter (fun e => !matchesTemp F e.1)
 
+/-! ### The clean-up as the `filepath.Walk` it is
+
+`DeleteTempFilesIfExist` is `filepath.Walk(workDir, callback)`. Walk calls the callback for work_dir itself and then for
+its children in byte-wise lexical order of their names (`readDirNames` sorts them). The callback may call
+`deleteIfTempFileOrDir` (`RemoveAll` iff the entry's *name* matches the pattern) and may return `filepath.SkipDir`.
+`SkipDir` returned for a directory: Walk does not descend into it and goes on with the next sibling. `SkipDir` returned
+for a non-directory: Walk skips *all remaining entries of the parent*, i.e. the rest of work_dir. For which entries the
+callback does the one and the other is regenerated from the source as two strings (`Crv.Generated.walkDeleteGuard`,
+`walkSkipGuard`); the definitions here take them as parameters, `Crv.PathsWalk.startupSweep` instantiates them.
+
+Only the direct children of work_dir are modelled. -/
+
+/-- Byte-wise lexical order on names (`sort.Strings` on Go strings): a proper prefix sorts first. -/
+def nameLe : Name → Name → Bool
+  | [], _ => true
+  | _ :: _, [] => false
+  | a :: as, b :: bs => if a < b then true else if a = b then nameLe as bs else false
+
+def entryLe (a b : Name × Node) : Bool := nameLe a.1 b.1
+
+/-- The children of work_dir in the order in which Walk visits them. -/
+def sortedChildren (fs : Fs) : List (Name × Node) := fs.mergeSort entryLe
+
+def Node.isFile : Node → Bool
+  | .file => true
+  | .dir _ => false
+
+/-- Does a guard of the callback ("nonroot": every entry except work_dir itself; "dir-nonroot": every directory except
+work_dir itself; "never"; any other string is read as "never") hold for a *child* of work_dir with node `x`? -/
+def guardApplies (g : String) (x : Node) : Bool :=
+  if g = "nonroot" then true
+  else if g = "dir-nonroot" then !x.isFile
+  else false
+
+/-- The names the walk removes, given the children in visiting order. For each visited child: it is removed iff the
+delete guard holds for it and its name matches the pattern. Then
+* the skip guard holds and the child is a *file*: `SkipDir` for a non-directory — the walk ends here, the remaining
+  children are not visited;
+* the skip guard holds and the child is a directory: it is not descended into, the walk goes on with the next sibling;
+* the skip guard does not hold and the child is a directory: Walk descends into it. Its content is not modelled (names
+  inside a LevelDB directory never match the pattern, nothing there is removed) and the descent is ignored — **except**
+  when the directory has just been removed: Walk has read the directory's names before it called the callback, now
+  `lstat` fails on the first of them, Walk hands the error to the callback, the callback returns it (first statement of
+  the callback in the source; not part of the regenerated facts) and the whole walk ends with that error. Directories in
+  work_dir are taken to be non-empty on disk (a LevelDB directory always is), so "removed and descended into" ends the
+  walk. With the guards of the source every directory is skipped and this case does not occur. -/
+def walkDeleted (delGuard skipGuard : String) (F : Facts) : List (Name × Node) → List Name
+  | [] => []
+  | e :: rest =>
+    let removed := guardApplies delGuard e.2 && matchesTemp F e.1
+    let here := if removed then [e.1] else []
+    let skip := guardApplies skipGuard e.2
+    if skip && e.2.isFile then here                      -- SkipDir for a file: rest of work_dir is skipped
+    else if !skip && !e.2.isFile && removed then here    -- descent into a directory that is gone: walk ends with the error
+    else here ++ walkDeleted delGuard skipGuard F rest
+
+/-- work_dir after `DeleteTempFilesIfExist` with a callback of the given shape (`RemoveAll` on a name removes the entry). -/
+def walkSweep (delGuard skipGuard : String) (F : Facts) (fs : Fs) : Fs :=
+  fs.filter (fun e => !(walkDeleted delGuard skipGuard F (sortedChildren fs)).contains e.1)
+
 inductive Step
   | mkFile (n : Name)            -- os.CreateTemp
   | writeFile (n : Name)         -- download / copy into the file (content is not modelled)
